@@ -1,0 +1,51 @@
+//go:build verif
+
+package compose
+
+import (
+	"context"
+	"sync"
+)
+
+// VerifStepEvent is one iteration of runner.run's main loop: the tasks about to be submitted.
+type VerifStepEvent struct {
+	Path []string // node path of the (sub)graph being run, outermost first; empty for the top level
+	Step int
+	Keys []string // node keys of the tasks submitted in this step
+}
+
+// VerifRecorder collects step events of the runs whose context carries it.
+type VerifRecorder struct {
+	mu    sync.Mutex
+	Steps []VerifStepEvent
+}
+
+func (r *VerifRecorder) Snapshot() []VerifStepEvent {
+	r.mu.Lock()
+	defer r.mu.Unlock()
+	return append([]VerifStepEvent{}, r.Steps...)
+}
+
+type verifRecKey struct{}
+
+// VerifWithRecorder attaches a recorder to ctx.
+func VerifWithRecorder(ctx context.Context, r *VerifRecorder) context.Context {
+	return context.WithValue(ctx, verifRecKey{}, r)
+}
+
+func verifTraceSubmit(ctx context.Context, step int, tasks []*task) {
+	rec, _ := ctx.Value(verifRecKey{}).(*VerifRecorder)
+	if rec == nil {
+		return
+	}
+	ev := VerifStepEvent{Step: step}
+	if p, ok := getNodeKey(ctx); ok && p != nil {
+		ev.Path = append(ev.Path, p.path...)
+	}
+	for _, t := range tasks {
+		ev.Keys = append(ev.Keys, t.nodeKey)
+	}
+	rec.mu.Lock()
+	rec.Steps = append(rec.Steps, ev)
+	rec.mu.Unlock()
+}
